@@ -6,7 +6,7 @@
      (c14 run (id ..) (mode pre|post) (optype ..) (d "T.f,..") (denied (p ..)..) (gw <json>|(absent)) (gwerrs (p ..)..)
               (ref <json>|(skip)) (referrs n) (seen (c "T" "f")..) (asked ..) (objasked ..)
               (reqs (rq "ds" optype (roots (r "T" "f" protected denied)..) planroots)..)
-              (gates (g id "ds" optype (roots (r "T" "f" rule)..) sent eligible unique)..)
+              (gates (g id "ds" optype (roots (r "T" "f" rule)..) sent eligible unique (req optype (roots (r "T" "f" protected denied)..)))..)
               (forbidden "s"..) [(resp "bytes")] (flags (sentinel b) (goequal b) (mixed b) (merged b)) (sum ..))
      (c14 run (id ..) .. (execerror "..")) | (c14 op|run (id ..) (laberror "..")) | (c14 skip ..)
 
@@ -212,17 +212,26 @@ let handle (x : sexp) : (string * string) list =
                                 (if find_opt "deferred" items <> None then "/deferred" else "")
                                 op ds (if op = "query" then "all" else "one") names planroots tail)
         | _ -> raise (Sexp_error "rq")) (find "reqs" items);
-    (* 8 the gate model on the planned fetches *)
+    (* 8 the gate on the planned fetches: the model (rule chosen by the FETCH's operation type, the request's
+       only as fallback) against what was sent, and the other direction of the fetch_gate clause: a fetch that
+       the rule does not hold back, that was sent without denials and whose inputs are all there, IS sent *)
     if mode = "pre" then begin
       let cache = seed d !cur_coords in
       let planop = (match !cur_plan with Some p -> p.pl_op | None -> optype) in
       List.iter (function
-          | L [A "g"; A fid; S ds; A fop; L (A "roots" :: rs); sent; elig; uniq] ->
-            let roots = List.map root_of rs in
-            let verdict = is_fetch_authorized_from_cache true (fetch_optype (optype_of fop) planop) (bs ds) roots cache in
+          | L [A "g"; A fid; S ds; A fop; L (A "roots" :: rs); sent; elig; uniq; L [A "req"; A reqop; L (A "roots" :: rrs)]] ->
+            let ft = { ft_ds = bs ds; ft_op = optype_of fop; ft_roots = List.map root_of rs } in
+            let verdict = is_fetch_authorized true planop ft cache in
             let sent = sbool sent and elig = sbool elig in
             if (sent && sbool uniq && not verdict) || (elig && verdict && not sent) then
-              add "mismatch" (Printf.sprintf "corr:C14/gate fetch %s to %s: model verdict=%b, sent=%b eligible=%b%s" fid ds verdict sent elig tail)
+              add "mismatch" (Printf.sprintf "corr:C14/gate fetch %s to %s: model verdict=%b, sent=%b eligible=%b%s" fid ds verdict sent elig tail);
+            if elig && not sent && reqop <> "unknown" then begin
+              let flags = List.map (function L [A "r"; S _; S _; p; dn] -> (sbool p, sbool dn) | _ -> raise (Sexp_error "req root")) rrs in
+              let names = String.concat " " (List.map (function L [A "r"; S t; S f; _; dn] -> t ^ "." ^ f ^ (if sbool dn then "!" else "") | _ -> "") rrs) in
+              if not (must_not_send (optype_of reqop) flags) then
+                add "specfail" (Printf.sprintf "fetch_gate/suppressed the %s request of fetch %s to %s was NOT sent although %s of its root fields [%s] denied (it is sent without denials and everything it depends on was sent)%s"
+                                  reqop fid ds (if reqop = "query" then "not all" else "none") names tail)
+            end
           | _ -> raise (Sexp_error "gate")) (find "gates" items)
     end;
     if !res = [] then [("ok", if num sum "effective" >= 1 then "nt" else "tr")] else List.rev !res)
